@@ -1,10 +1,73 @@
 import MazeVerif.DriverOps.Util
+import MazeVerif.Model.Views
 namespace MZ.Drv.C13
-open Lean MZ.Drv
+open Lean MZ.Drv MZ.Views
 
-/-- driver ops of property C13 (`"op": "C13.<name>"`) -/
-def handle (op : String) (_j : Json) : R Json := do
+def jErr : Err → Json
+  | .indexError => Json.str "IndexError"
+  | .valueError => Json.str "ValueError"
+
+def jExcept {α} (f : α → Json) : Except Err α → Json
+  | .ok a => f a
+  | .error e => jErr e
+
+def asPair (j : Json) : R (Cell × Cell) := do
+  match (← j.getArr?).toList with
+  | [a, b] => pure ((← asCell a), (← asCell b))
+  | _ => throw "pair: expected [[r,c],[r,c]]"
+def asPairs (j : Json) : R (List (Cell × Cell)) := do (← j.getArr?).toList.mapM asPair
+def jPair (p : Cell × Cell) : Json := Json.arr #[jCell p.1, jCell p.2]
+def jPairs (l : List (Cell × Cell)) : Json := jList jPair l
+def jBool (b : Bool) : Json := Json.bool b
+def asBoolList (j : Json) : R (List Bool) := do (← j.getArr?).toList.mapM (·.getBool?)
+def jNatMat (l : List (List Nat)) : Json := jList jNats l
+
+/-- ops:
+  `C13.views` {rows, cols, edges, pairs, cells, comp_cells, paths:[{path,empty_ok}], flips:[[bool]], from_adj:[[pair]], sols:[{sol,always}]}
+     → every view of the model on these inputs (errors as "IndexError"/"ValueError")
+  `C13.lattice` {n} → {edges, maxdeg} -/
+def handle (op : String) (j : Json) : R Json := do
   match op with
+  | "C13.views" =>
+    let rows ← getNat j "rows"
+    let cols ← getNat j "cols"
+    let E ← getEdges j "edges"
+    let m : Maze := ⟨rows, cols, E⟩
+    let pairs ← asPairs (← fld j "pairs")
+    let cs ← getCells j "cells"
+    let ccs ← getCells j "comp_cells"
+    let paths ← (← getArr j "paths").mapM fun p => do
+      pure ((← getCells p "path"), (← getBool p "empty_ok"))
+    let flips ← (← getArr j "flips").mapM asBoolList
+    let fromAdj ← (← getArr j "from_adj").mapM asPairs
+    let sols ← (← getArr j "sols").mapM fun p => do
+      pure ((← getCells p "sol"), (← getBool p "always"))
+    let comp := ccs.map fun c =>
+      match componentFrom rows cols E c (componentFuel rows cols) with
+      | some v => jCells v
+      | none => Json.str "outOfFuel"
+    let fa := fromAdj.map fun adj =>
+      match fromAdjList adj with
+      | .ok m' => obj [("n", jNat m'.rows), ("entries", jEdges (trueEntries m'))]
+      | .error e => jErr e
+    pure <| obj [
+      ("nc", jList (fun p => jExcept jBool (nodesConnected m p.1 p.2)) pairs),
+      ("ic1", jList (fun p => jExcept jBool (isConnection1 m p)) pairs),
+      ("ic", jExcept (jList jBool) (isConnection m pairs)),
+      ("md", jList (fun p => jNat (manhattan p.1 p.2)) pairs),
+      ("nbrs", jList (fun c => jExcept jCells (getCoordNeighbors m c)) cs),
+      ("nbrs_shared", jList (fun c => jCells (coordNeighbors rows cols E c)) cs),
+      ("comp", Json.arr comp.toArray),
+      ("vp", jList (fun p => jExcept jBool (isValidPath m p.1 p.2)) paths),
+      ("degrees", jNatMat (coordDegrees m)),
+      ("nodes", jCells (getNodes m)),
+      ("adj", jList (fun f => jPairs (asAdjList m f)) flips),
+      ("from_adj", Json.arr fa.toArray),
+      ("forks", jList (fun s => jExcept jNats (forkIdxs m s.1 s.2)) sols),
+      ("following", jList (fun s => jExcept jNats (followingIdxs m s.1)) sols)]
+  | "C13.lattice" =>
+    let n ← getNat j "n"
+    pure <| obj [("edges", jPairs (latticeConnectionArray n)), ("maxdeg", jNatMat (latticeMaxDegrees n))]
   | _ => throw s!"unknown op {op}"
 
 end MZ.Drv.C13
